@@ -87,7 +87,7 @@ def _observe(ai, ctx, mf, what):
         ai.call_function(fn, [mf], {'file': out})
         import re
         return [re.sub(r'#\d+', '', repr(x)) for x in out.written]
-    r = ai.call_function(fn, [mf], {})
+    r = ai.consume(ai.call_function(fn, [mf], {}))
     if isinstance(r, AList):
         return [(x.attrs.get('type'), x.attrs.get('note'), x.attrs.get('time')) if isinstance(x, AObj) else repr(x) for x in r.items]
     return r
